@@ -154,8 +154,38 @@ def run_tables(shard, rec, B):
                 lg, lp, lr = B.state(St)
                 xg, xp = O.map_image_list(*textbook_map(name, list(qubits), N), tg, tp)
                 rec.check("place.state", np.array_equal(lg, xg) and np.array_equal(lp, xp) and lr == r, [name, list(qubits), N, r], True)
+    # a gate that has been used backward / compiled (derived maps cached) is copied: the copy is the same textbook gate
+    for name in ("H", "S", "X", "Y", "Z"):
+        for prep in ("backward", "compile"):
+            gate = ctor[name](1)
+            S2 = O.all_strings(2)
+            PL = B.PauliList(np.repeat(S2, 4, 0), np.tile(np.arange(4), 16))
+            if prep == "backward":
+                gate.backward(PL)
+            else:
+                gate.compile()
+            ok, g2 = rec.attempt("table.copy." + name, [name, prep], lambda: gate.copy())
+            if ok:
+                apply_gate(rec, B, "table.copy." + name, g2, name, [1], 2, np.repeat(S2, 4, 0), np.tile(np.arange(4), 16), True)
+    for (c, t) in ((0, 1), (1, 0)):
+        gate = C.CNOT(c, t)
+        gate.compile()
+        ok, g2 = rec.attempt("table.copy.CNOT", [c, t], lambda: gate.copy())
+        if ok:
+            S2 = O.all_strings(2)
+            apply_gate(rec, B, "table.copy.CNOT", g2, "CNOT", [c, t], 2, np.repeat(S2, 4, 0), np.tile(np.arange(4), 16), True)
+    # numpy-integer qubit labels behave like python integers
+    for name in ("H", "S", "X", "Y", "Z"):
+        gate = ctor[name](np.int64(1))
+        S2 = O.all_strings(2)
+        apply_gate(rec, B, "place." + name, gate, name, [1], 2, np.repeat(S2, 4, 0), np.tile(np.arange(4), 16), True)
+    for (c, t) in ((0, 1), (1, 0)):
+        gate = C.CNOT(np.int64(c), np.int32(t))
+        S2 = O.all_strings(2)
+        apply_gate(rec, B, "place.CNOT", gate, "CNOT", [c, t], 2, np.repeat(S2, 4, 0), np.tile(np.arange(4), 16), True)
     # wrong qubit counts are rejected
-    bad = [("H", ()), ("H", (0, 1)), ("S", (0, 1)), ("X", (0, 1, 2)), ("Y", ()), ("Z", (1, 2)), ("CNOT", (0,)), ("CNOT", (0, 1, 2)), ("CNOT", ())]
+    bad = [("H", (0, 0)), ("S", (1, 1, 1)), ("X", (2, 2)), ("CNOT", (0, 1, 1)), ("CNOT", (2, 2, 0)), ("CNOT", (1, 1, 1)),
+           ("H", ()), ("H", (0, 1)), ("S", (0, 1)), ("X", (0, 1, 2)), ("Y", ()), ("Z", (1, 2)), ("CNOT", (0,)), ("CNOT", (0, 1, 2)), ("CNOT", ())]
     for name, qubits in bad:
         try:
             ctor[name](*qubits)
@@ -218,6 +248,15 @@ def run_cgroup(shard, rec, B):
                     if ok:
                         bg, bp = B.gsps(PL)
                         rec.check("C.undo", np.array_equal(bg, gs) and np.array_equal(bp, ps % 4), [k, q, N], True)
+    for k in range(24):    # numpy integers are integers
+        ok, gate = rec.attempt("C.npint", k, lambda: C.C(np.int64(k), np.int64(1)))
+        if ok:
+            fg, fp = B.gsps(gate.forward_map)
+            PL = B.PauliList(np.eye(4, dtype=np.int64), np.zeros(4, dtype=np.int64))
+            gate.forward(PL)
+            eg, ep = O.map_embed(maps[k][0], maps[k][1], [1], 2)
+            lg, lp = B.gsps(PL)
+            rec.check("C.npint", np.array_equal(fg, maps[k][0]) and np.array_equal(fp, maps[k][1]) and np.array_equal(lg, eg) and np.array_equal(lp, ep % 4), k, True)
     for k in (24, 25, -1, -24, 100, 2.5, None):
         try:
             C.C(k, 0)
@@ -228,7 +267,17 @@ def run_cgroup(shard, rec, B):
         except Exception as e:
             got = type(e).__name__
         rec.check("reject.index", got == "ValueError", repr(k), True, expected="ValueError", observed=got)
-    for qubits in ((), (0, 1), (0, 1, 2)):
+    for k in range(24):
+        gate = C.C(k, 0)
+        PL = B.PauliList(np.eye(2, dtype=np.int64), np.zeros(2, dtype=np.int64))
+        gate.backward(PL)
+        g2 = gate.copy()
+        P2 = B.PauliList(np.eye(2, dtype=np.int64), np.zeros(2, dtype=np.int64))
+        g2.forward(P2)
+        lg, lp = B.gsps(P2)
+        rec.check("C.copy", np.array_equal(lg, maps[k][0]) and np.array_equal(lp, maps[k][1] % 4), k, True,
+                  expected=[O.show(a, b) for a, b in zip(*maps[k])], observed=[O.show(a, b) for a, b in zip(lg, lp)])
+    for qubits in ((), (0, 1), (0, 1, 2), (1, 1), (0, 0, 0)):
         try:
             C.C(3, *qubits)
             got = "accepted"
